@@ -353,7 +353,32 @@ namespace options
         // Therefore, we need to keep checking all toggles, even after one match.
         auto match_found = false;
 
-        for (auto& option : get_all_toggles())
+        auto toggles = get_all_toggles();
+
+        if (in.is_short())
+        {
+            // Every single letter has to be the short name of a toggle. Otherwise the letters,
+            // which do not match, would be silently dropped.
+            for (auto& letter : in.as_short_list())
+            {
+                auto known = false;
+
+                for (auto& option : toggles)
+                {
+                    if (option.second->has_short_name() && option.second->short_name() == letter)
+                    {
+                        known = true;
+                    }
+                }
+
+                if (!known)
+                {
+                    return false;
+                }
+            }
+        }
+
+        for (auto& option : toggles)
         {
             if (option.second->matches(in))
             {
